@@ -5,6 +5,7 @@ import (
 	"time"
 
 	"verif/sim"
+	"verif/simio"
 )
 
 // tinyStream returns one of a small pool of short valid streams (by index).
@@ -108,6 +109,9 @@ func c12Model(c *RCase) (c12Expect, *Built) {
 }
 
 func runC12(c *RCase, x *sim.Ctx) *sim.Violation {
+	if c.Fresh {
+		return runFresh("c12case", c, x)
+	}
 	exp, b := c12Model(c)
 	if b.Err == errWriterFailed {
 		x.Count("writer-contract-failures(left to C01/C02)", 1)
@@ -172,6 +176,7 @@ func runC12(c *RCase, x *sim.Ctx) *sim.Violation {
 }
 
 func init() {
+	registerFresh("c12case", runC12)
 	sim.Register(sim.Spec[RCase]{
 		Property:  "C12",
 		Engine:    "rsim",
@@ -182,6 +187,19 @@ func init() {
 		Gen: func(r *sim.Rng, tier string, idx int) *RCase {
 			if idx < c12EnumN {
 				return c12EnumCase(idx)
+			}
+			if (tier == "quick" && idx == c12EnumN+333) || (tier == "thorough" && idx%200000 == 4444) {
+				// tens of MiB of stream padding in one piece, between two streams or
+				// after the last: legal, and read four bytes at a time. In a process
+				// of its own: a reader that recurses per padding word dies of a stack
+				// overflow, which no recover() catches.
+				c := &RCase{Src: simio.SourcePlan{Frag: "whole"}, Reads: []int{1 << 16}, PostEOF: []int{1}, RDict: 4096, Fresh: true}
+				pad := 4 * r.Range(10<<20, 14<<20)
+				c.Stream = StreamRecipe{Kind: "multi", Parts: []StreamRecipe{tinyStream(1), tinyStream(3)}, Pads: []int{pad, 0}}
+				if r.Bool() {
+					c.Stream.Pads = []int{0, pad}
+				}
+				return c
 			}
 			c := &RCase{Src: genSrcPlanZ(r), Reads: genReads(r), PostEOF: genPostEOF(r), RDict: 4096, Single: r.Chance(1, 3)}
 			m := genMulti(r, tier, true)
